@@ -824,6 +824,7 @@ def gen_parse_case(rng, hist):
     sides = [[n, a, u] for n, a, u in SIDE_NAMES[cls] if a < nax]
     vid_counter = [0]
     seq_type = rng.choice([tuple, list])
+    side_names = {n for n, _, _ in sides}
 
     def spec_for(per_hint):
         vid_counter[0] += 1
@@ -833,12 +834,12 @@ def gen_parse_case(rng, hist):
             return ({"t": "periodic"}, "periodic")
         if per_hint and r < 0.75:
             return ({"t": "antiperiodic"}, "anti-periodic")
-        if r < 0.05:
+        if r < 0.03:
             return ({"t": "periodic"}, "periodic")
-        if r < 0.15:
+        if r < 0.09:
             name = rng.choice(["value", "neumann", "derivative"])
             return ({"t": "auto", "name": name, "vid": 0}, "auto_periodic_" + name)
-        if r < 0.2:
+        if r < 0.12:
             return ({"t": "named", "name": "bogus_name", "vid": vid}, {"bogus_name": vid})
         kind = rng.choice(["dirichlet", "neumann", "mixed", "curvature", "exprValue", "exprDerivative"])
         name = rng.choice(ALIASES[kind])
@@ -850,10 +851,17 @@ def gen_parse_case(rng, hist):
             return ({"t": "named", "name": name, "vid": vid}, {"type": name, "value": vid})
         return ({"t": "named", "name": name, "vid": vid}, {name: vid})
 
+    def inner_spec(per_hint):
+        """a condition inside a composite entry: mostly a valid local condition"""
+        while True:
+            m, p = spec_for(per_hint)
+            if (m["t"] == "named" and m["name"] != "bogus_name") or rng.random() < 0.2:
+                return m, p
+
     def lowhigh_for(per_hint):
-        lo = None if rng.random() < 0.08 else spec_for(per_hint and rng.random() < 0.3)
-        hi = None if (rng.random() < 0.08 and lo is not None) else spec_for(per_hint and rng.random() < 0.3)
-        extra = rng.random() < 0.08
+        lo = None if rng.random() < 0.05 else inner_spec(per_hint and rng.random() < 0.3)
+        hi = None if (rng.random() < 0.05 and lo is not None) else inner_spec(per_hint and rng.random() < 0.3)
+        extra = rng.random() < 0.05
         py = {}
         if lo is not None:
             py["low"] = lo[1]
@@ -864,20 +872,21 @@ def gen_parse_case(rng, hist):
         hist("parse-entry", "low/high" + ("" if lo and hi and not extra else ":incomplete"))
         return ({"t": "lowhigh", "lo": lo and lo[0], "hi": hi and hi[0], "extra": extra}, py)
 
-    def entry_for(per_hint):
-        """(model entry, python value) written for an axis, a side, `*` or a named boundary"""
+    def entry_for(per_hint, axis_level=True):
+        """(model entry, python value) written for an axis or `*` (`axis_level`), or for a side / named boundary,
+        where anything but a single condition is an error unless both sides get equal values"""
         r = rng.random()
-        if r < 0.7:
+        if r < (0.6 if axis_level and not per_hint else 0.93):
             hist("parse-entry", "one")
             return spec_for(per_hint)
-        if r < 0.84:
+        if r < (0.8 if axis_level else 0.965):
             return lowhigh_for(per_hint)
-        k = rng.choice([2, 2, 2, 2, 2, 0, 1, 3])
+        k = rng.choice([2, 2, 2, 2, 2, 2, 2, 2, 0, 1, 3])
         if k == 2 and rng.random() < 0.2:
             one = spec_for(per_hint)
             items = [one, one]  # two identical conditions
         else:
-            items = [spec_for(per_hint and rng.random() < 0.5) for _ in range(k)]
+            items = [inner_spec(per_hint and rng.random() < 0.5) for _ in range(k)]
         hist("parse-entry", f"{seq_type.__name__}:{k}")
         return ({"t": "seq", "l": [m for m, _ in items]}, seq_type([p for _, p in items]))
 
@@ -931,7 +940,7 @@ def gen_parse_case(rng, hist):
                 if k in d_p:
                     continue
                 # a one-sided entry on a periodic axis is usually wrong on purpose only sometimes
-                m, p = entry_for(per and (rng.random() < 0.9))
+                m, p = entry_for(per and (rng.random() < 0.9), axis_level=(k == "*" or not k.endswith(("-", "+"))) and k not in side_names)
                 d_m.append([k, m])
                 d_p[k] = p
         top_m, top_p = {"dict": d_m}, d_p
